@@ -108,6 +108,51 @@ def ref_call_rows(stage, changes, start_index, start_row, bob_ref, single_ref, o
     return rows, ok
 
 
+# Dixon's Bob Minor, from its description in the ringing literature: plain hunt (a cross at handstroke), and at
+# backstroke 2nds is made when the treble leads, 4ths when the 2 or the 4 leads, the lead is made (16) otherwise; a
+# Bob replaces the treble's 2nds by 4ths, a Single by 1234; a call waits for the treble's lead.
+DIXON_PLAIN = {0: ([], [1]), 1: ([], [1, 2]), 2: ([], [1, 4]), 4: ([], [1, 4])}
+DIXON_BOB = {1: ([], [1, 4])}
+DIXON_SINGLE = {1: ([], [1, 2, 3, 4])}
+
+
+def ref_dixon_rows(stage, start_row, ops, trace=None):
+    """Reference semantics of the rule-driven generator (`DixonoidsGenerator` with its default tables): the bell
+    that leads picks the change; a pending call is used by the first leading bell that has a rule for it (both
+    strokes of that lead) and is spent at its backstroke; a leading bell without a rule for the pending call rings
+    its own plain rule.  Returns (rows, ok); ok is False when both calls were ever pending at once."""
+    rows, row = [], list(start_row)
+    bob = single = False
+    ok = True
+    for op in ops:
+        if op == "b":
+            bob = True
+        elif op == "s":
+            single = True
+        elif op == "r":
+            bob = single = False
+            row = list(start_row)
+        else:
+            if bob and single:
+                ok = False
+            lead, i = row[0], (0 if op == "H" else 1)
+            if bob and lead in DIXON_BOB:
+                ch = DIXON_BOB[lead][i]
+                if op == "B":
+                    bob = single = False
+            elif single and lead in DIXON_SINGLE:
+                ch = DIXON_SINGLE[lead][i]
+                if op == "B":
+                    bob = single = False
+            else:
+                ch = DIXON_PLAIN.get(lead, DIXON_PLAIN[0])[i]
+            if trace is not None:
+                trace.append(list(ch))
+            row = ref_apply(stage, ch, row)
+            rows.append(row)
+    return rows, ok
+
+
 def special_reference(ty, stage):
     """(changes, bob_ref, single_ref) of the built-in methods, written from their definitions in the
     ringing literature: Grandsire = 3 then plain hunt, Bob 3 / Single 3.123 at the lead end; Stedman =
